@@ -49,7 +49,7 @@ def arg_values(rng, args):
     vals = {}
     for ty, nm in args:
         if ty == "str":
-            vals[nm] = rng.choice(["label", "a b c", "x" * 20, "%d %s", ""])
+            vals[nm] = rng.choice(["label", "a b c", "x" * 20, "%d %s", "", "r\u00e9solution_t\u00e2che", "\u4efb\u52a1 7", "na\u00efve"])
         else:
             bits = TYPESZ[ty] * 8
             if ty[0] == "u":
